@@ -1,1 +1,308 @@
-// read-back lemmas (token level)
+// =====================================================================================================
+// read-back, token level (included into unit.rs inside `verus!`).
+//
+// The ISO token function below is the specification of units/lexer (unit.rs there: ws_end, reg_end, eol_after,
+// token_start, token_end -- the contracts of Lexer::next_word / Lexer::next: `next_is_iso_token`), copied with every
+// deviation switch off, i.e. plain ISO 32000-1 7.2.2 / 7.2.3.
+//
+// theorem_tokens_read_back: ANY byte string that is a concatenation  sep0 w0 sep1 w1 ... sepN-1 wN-1  of token-shaped
+// words (numbers / keywords, names, `[` `]` `<<` `>>`) and white-space, where white-space is present wherever a token that
+// would absorb a following regular character is followed by one, is re-tokenised into exactly w0 .. wN-1, whatever
+// precedes it and whatever follows it (the first following byte obeying the same rule).  The corollaries instantiate it
+// for the spellings of this unit; they use nothing of the SEP_* constants but `seps_ok()`.
+// =====================================================================================================
+pub open spec fn ws_end(buf: Seq<u8>, p: int) -> int decreases buf.len() - p {
+    if 0 <= p < buf.len() && is_ws(buf[p]) { ws_end(buf, p + 1) } else { p }
+}
+pub open spec fn reg_end(buf: Seq<u8>, p: int) -> int decreases buf.len() - p {
+    if 0 <= p < buf.len() && is_regular(buf[p]) { reg_end(buf, p + 1) } else { p }
+}
+pub open spec fn is_eol(b: u8) -> bool { b == 10 || b == 13 }
+pub open spec fn eol_after(buf: Seq<u8>, p: int) -> Option<int> decreases buf.len() - p {
+    if p < 0 || p >= buf.len() { None } else if is_eol(buf[p]) { Some(p + 1) } else { eol_after(buf, p + 1) }
+}
+pub open spec fn token_start(buf: Seq<u8>, p: int) -> Option<int> decreases buf.len() - p {
+    let q = ws_end(buf, p);
+    if p < 0 || q < p || q >= buf.len() { None }
+    else if buf[q] == 37 {
+        match eol_after(buf, q + 1) {
+            Some(e) => if p < e <= buf.len() { token_start(buf, e) } else { None },
+            None => None,
+        }
+    } else { Some(q) }
+}
+pub open spec fn token_end(buf: Seq<u8>, s: int) -> int {
+    if is_delim(buf[s]) {
+        if buf[s] == 47 { reg_end(buf, s + 1) }
+        else if s + 1 < buf.len() && ((buf[s] == 60 && buf[s+1] == 60) || (buf[s] == 62 && buf[s+1] == 62)) { s + 2 }
+        else { s + 1 }
+    } else { reg_end(buf, s) }
+}
+
+// ---- token shapes the serialiser writes outside strings and stream data
+pub open spec fn all_regular(w: Seq<u8>, from: int) -> bool { forall|i: int| from <= i < w.len() ==> is_regular(#[trigger] w[i]) }
+pub open spec fn is_word(w: Seq<u8>) -> bool { w.len() > 0 && all_regular(w, 0) }                 // number, keyword
+pub open spec fn is_name_tok(w: Seq<u8>) -> bool { w.len() > 0 && w[0] == 47 && all_regular(w, 1) }   // `/` + regular characters
+pub open spec fn is_bracket(w: Seq<u8>) -> bool { w == ARRAY_OPEN() || w == ARRAY_CLOSE() || w == DICT_OPEN() || w == DICT_CLOSE() }
+pub open spec fn tok_shape(w: Seq<u8>) -> bool { is_word(w) || is_name_tok(w) || is_bracket(w) }
+// a regular character written directly behind `w` would become part of it (7.2.2: a token ends at a delimiter or white-space)
+pub open spec fn absorbs(w: Seq<u8>) -> bool { is_word(w) || is_name_tok(w) }
+// `next` may follow `w` without changing where `w` ends
+pub open spec fn may_follow(w: Seq<u8>, next: Seq<u8>) -> bool { next.len() == 0 || !(absorbs(w) && is_regular(next[0])) }
+
+pub open spec fn cat(seps: Seq<Seq<u8>>, ws: Seq<Seq<u8>>) -> Seq<u8> decreases ws.len() {
+    if ws.len() == 0 || seps.len() != ws.len() { Seq::empty() } else { seps[0] + ws[0] + cat(seps.drop_first(), ws.drop_first()) }
+}
+pub open spec fn separated(seps: Seq<Seq<u8>>, ws: Seq<Seq<u8>>, rest: Seq<u8>) -> bool {
+    &&& seps.len() == ws.len()
+    &&& forall|i: int| 0 <= i < ws.len() ==> all_ws(#[trigger] seps[i]) && tok_shape(#[trigger] ws[i])
+    &&& forall|i: int| 0 <= i < ws.len() - 1 ==> (#[trigger] seps[i + 1]).len() > 0 || may_follow(ws[i], ws[i + 1])
+    &&& ws.len() > 0 ==> may_follow(ws[ws.len() - 1], rest)
+}
+// the tokens read from position p on are exactly ws[0], ws[1], ...; result = position after the last one
+pub open spec fn lex_seq(buf: Seq<u8>, p: int, ws: Seq<Seq<u8>>) -> Option<int> decreases ws.len() {
+    if ws.len() == 0 { Some(p) } else {
+        match token_start(buf, p) {
+            None => None,
+            Some(s) => {
+                let e = token_end(buf, s);
+                if 0 <= s <= e <= buf.len() && buf.subrange(s, e) == ws[0] { lex_seq(buf, e, ws.drop_first()) } else { None }
+            }
+        }
+    }
+}
+
+proof fn lemma_ws_end_run(buf: Seq<u8>, p: int, k: int)
+    requires 0 <= p, 0 <= k, p + k <= buf.len(), forall|i: int| p <= i < p + k ==> is_ws(#[trigger] buf[i]),
+        p + k == buf.len() || !is_ws(buf[p + k]),
+    ensures ws_end(buf, p) == p + k
+    decreases k
+{ if k > 0 { lemma_ws_end_run(buf, p + 1, k - 1); } }
+proof fn lemma_reg_end_run(buf: Seq<u8>, p: int, k: int)
+    requires 0 <= p, 0 <= k, p + k <= buf.len(), forall|i: int| p <= i < p + k ==> is_regular(#[trigger] buf[i]),
+        p + k == buf.len() || !is_regular(buf[p + k]),
+    ensures reg_end(buf, p) == p + k
+    decreases k
+{ if k > 0 { lemma_reg_end_run(buf, p + 1, k - 1); } }
+
+// one token: after any prefix and any white-space, a token-shaped word is the next token, provided what follows may follow
+pub proof fn lemma_token_reads_back(pre: Seq<u8>, sep: Seq<u8>, w: Seq<u8>, next: Seq<u8>)
+    requires all_ws(sep), tok_shape(w), may_follow(w, next),
+    ensures ({
+        let buf = pre + sep + w + next; let s = pre.len() + sep.len();
+        token_start(buf, pre.len() as int) == Some(s as int) && token_end(buf, s as int) == s + w.len()
+            && buf.subrange(s as int, s + w.len()) == w
+    })
+{
+    let buf = pre + sep + w + next; let p = pre.len() as int; let s = p + sep.len(); let e = s + w.len();
+    assert(w.len() > 0);
+    assert forall|i: int| p <= i < s implies is_ws(#[trigger] buf[i]) by { assert(buf[i] == sep[i - p]); }
+    assert forall|i: int| s <= i < e implies #[trigger] buf[i] == w[i - s] by {}
+    assert(buf[s] == w[0]);
+    assert(!is_ws(w[0]) && w[0] != 37) by { if is_word(w) { assert(is_regular(w[0])); } }
+    lemma_ws_end_run(buf, p, sep.len() as int);
+    assert(buf.subrange(s, e) =~= w);
+    if next.len() > 0 { assert(buf[e] == next[0]); }
+    if is_word(w) {
+        assert forall|i: int| s <= i < e implies is_regular(#[trigger] buf[i]) by { assert(buf[i] == w[i - s]); }
+        lemma_reg_end_run(buf, s, w.len() as int);
+        assert(!is_delim(buf[s]));
+    } else if is_name_tok(w) {
+        assert forall|i: int| s + 1 <= i < e implies is_regular(#[trigger] buf[i]) by { assert(buf[i] == w[i - s]); }
+        lemma_reg_end_run(buf, s + 1, w.len() - 1);
+    } else {
+        if w == DICT_OPEN() || w == DICT_CLOSE() { assert(buf[s + 1] == w[1]); }
+    }
+}
+
+proof fn lemma_cat_first(seps: Seq<Seq<u8>>, ws: Seq<Seq<u8>>, rest: Seq<u8>)
+    requires separated(seps, ws, rest), ws.len() > 0,
+    ensures may_follow(ws[0], cat(seps.drop_first(), ws.drop_first()) + rest) || seps.len() > 1 && seps[1].len() > 0,
+            separated(seps.drop_first(), ws.drop_first(), rest),
+{
+    let s1 = seps.drop_first(); let w1 = ws.drop_first();
+    assert forall|i: int| 0 <= i < w1.len() implies all_ws(#[trigger] s1[i]) && tok_shape(#[trigger] w1[i]) by { assert(s1[i] == seps[i + 1]); assert(w1[i] == ws[i + 1]); }
+    assert forall|i: int| 0 <= i < w1.len() - 1 implies (#[trigger] s1[i + 1]).len() > 0 || may_follow(w1[i], w1[i + 1]) by {
+        assert(s1[i + 1] == seps[i + 1 + 1]); assert(w1[i] == ws[i + 1]); assert(w1[i + 1] == ws[i + 2]);
+    }
+    if w1.len() > 0 {
+        assert(w1[w1.len() - 1] == ws[ws.len() - 1]);
+        let c = cat(s1, w1);
+        assert(c == s1[0] + w1[0] + cat(s1.drop_first(), w1.drop_first()));
+        assert(s1[0] == seps[1]); assert(w1[0] == ws[1]);
+        if seps[1].len() == 0 {
+            assert(w1[0].len() > 0);
+            assert((c + rest)[0] == ws[1][0]);
+            assert(seps[0 + 1].len() > 0 || may_follow(ws[0], ws[0 + 1]));
+        }
+    } else {
+        assert(cat(s1, w1) + rest =~= rest);
+    }
+}
+
+pub proof fn theorem_tokens_read_back(pre: Seq<u8>, seps: Seq<Seq<u8>>, ws: Seq<Seq<u8>>, rest: Seq<u8>)
+    requires separated(seps, ws, rest),
+    ensures lex_seq(pre + cat(seps, ws) + rest, pre.len() as int, ws) == Some(pre.len() + cat(seps, ws).len()),
+    decreases ws.len()
+{
+    if ws.len() > 0 {
+        let s1 = seps.drop_first(); let w1 = ws.drop_first();
+        let tail = cat(s1, w1);
+        let buf = pre + cat(seps, ws) + rest;
+        lemma_cat_first(seps, ws, rest);
+        assert(cat(seps, ws) == seps[0] + ws[0] + tail);
+        assert(buf =~= pre + seps[0] + ws[0] + (tail + rest));
+        // what follows ws[0]: white-space (seps[1] non-empty) or a byte that may follow
+        if !may_follow(ws[0], tail + rest) {
+            assert(tail == s1[0] + w1[0] + cat(s1.drop_first(), w1.drop_first()));
+            assert(s1[0] == seps[1]);
+            assert((tail + rest)[0] == seps[1][0]);
+            assert(is_ws(seps[1][0]));
+        }
+        lemma_token_reads_back(pre, seps[0], ws[0], tail + rest);
+        let pre2 = pre + seps[0] + ws[0];
+        theorem_tokens_read_back(pre2, s1, w1, rest);
+        assert(buf =~= pre2 + tail + rest);
+    } else {
+        assert(cat(seps, ws) =~= Seq::<u8>::empty());
+    }
+}
+
+// ---- the scalar spellings are token-shaped
+proof fn lemma_dec_digits_word(n: nat)
+    ensures dec_digits(n).len() > 0, all_regular(dec_digits(n), 0), forall|i: int| 0 <= i < dec_digits(n).len() ==> is_digit(#[trigger] dec_digits(n)[i])
+    decreases n
+{ if n >= 10 { lemma_dec_digits_word(n / 10); } }
+pub proof fn lemma_dec_int_word(i: int)
+    ensures is_word(dec_int(i))
+{ if i < 0 { lemma_dec_digits_word((-i) as nat); } else { lemma_dec_digits_word(i as nat); } }
+proof fn lemma_name_body_regular(d: Seq<u8>)
+    ensures all_regular(name_body(d), 0)
+    decreases d.len()
+{
+    if d.len() > 0 {
+        lemma_name_body_regular(d.drop_last());
+        let b = d.last();
+        assert(all_regular(name_byte(b), 0)) by {
+            if !name_plain(b) { assert(is_regular(35u8)); assert(forall|n: int| 0 <= n < 16 ==> is_regular(#[trigger] hexdig(n))); assert(0 <= b as int / 16 < 16 && 0 <= b as int % 16 < 16); }
+        }
+    }
+}
+pub proof fn lemma_name_is_token(s: Seq<char>)
+    ensures is_name_tok(spell_name(s))
+{ lemma_name_body_regular(encode_utf8(s)); }
+// a finite real, given what is required of `Display for f32`
+pub proof fn lemma_real_is_word(n: f32)
+    requires display_req(), f32_finite(n), !DEV_REAL_WITHOUT_PERIOD(),
+    ensures is_word(spell_real(n)), has_period(spell_real(n)),
+{
+    let t = f32_display(n);
+    assert(is_plain_decimal(t));
+    assert(is_regular(45u8) && is_regular(46u8) && is_regular(48u8));
+    assert forall|i: int| 0 <= i < t.len() implies is_regular(#[trigger] t[i]) by {
+        let k: int = if t.len() > 0 && t[0] == 45 { 1 } else { 0 };
+        if i >= k { assert(is_digit(t[i]) || t[i] == 46); }
+    }
+    if !has_period(t) { let u = t + seq![46u8, 48u8]; assert(u[t.len() as int] == 46); }
+}
+pub proof fn lemma_keywords_are_words()
+    ensures is_word(KW_NULL()), is_word(KW_TRUE()), is_word(KW_FALSE()), is_word(KW_R()), is_word(KW_OBJ()), is_word(KW_ENDOBJ()),
+        is_word(KW_STREAM()), is_word(KW_ENDSTREAM()),
+{}
+
+// the values whose spelling is ONE token
+pub open spec fn is_one_token_value(v: Primitive) -> bool {
+    v is Null || v is Integer || v is Boolean || v is Name || (v matches Primitive::Number(n) && f32_finite(n))
+}
+pub proof fn lemma_one_token_value(v: Primitive)
+    requires is_one_token_value(v), display_req(), !DEV_REAL_WITHOUT_PERIOD(),
+    ensures tok_shape(spell(v)), absorbs(spell(v)),
+{
+    lemma_keywords_are_words();
+    match v {
+        Primitive::Integer(i) => { lemma_dec_int_word(i as int); }
+        Primitive::Number(n) => { lemma_real_is_word(n); }
+        Primitive::Name(s) => { lemma_name_is_token(s@); }
+        _ => {}
+    }
+}
+
+// ---- corollaries for the spellings of this unit
+// 7.3.10 `id gen R`, wherever it stands (array element, dictionary value, object body): three tokens
+pub proof fn theorem_reference_reads_back(pre: Seq<u8>, id: ObjNr, gen: GenNr, rest: Seq<u8>)
+    requires seps_ok(), rest.len() == 0 || !is_regular(rest[0]),
+    ensures lex_seq(pre + spell_ref(id, gen) + rest, pre.len() as int, seq![dec_int(id as int), dec_int(gen as int), KW_R()])
+        == Some(pre.len() + spell_ref(id, gen).len()),
+{
+    lemma_dec_int_word(id as int); lemma_dec_int_word(gen as int); lemma_keywords_are_words();
+    let seps = seq![Seq::<u8>::empty(), SEP_REF(), SEP_REF()];
+    let ws = seq![dec_int(id as int), dec_int(gen as int), KW_R()];
+    assert(all_ws(Seq::<u8>::empty()));
+    assert(cat(seps, ws) =~= spell_ref(id, gen)) by {
+        let s1 = seps.drop_first(); let w1 = ws.drop_first(); let s2 = s1.drop_first(); let w2 = w1.drop_first();
+        assert(cat(s2.drop_first(), w2.drop_first()) =~= Seq::<u8>::empty());
+        assert(cat(s2, w2) =~= SEP_REF() + KW_R());
+        assert(cat(s1, w1) =~= SEP_REF() + dec_int(gen as int) + (SEP_REF() + KW_R()));
+    }
+    theorem_tokens_read_back(pre, seps, ws, rest);
+}
+// 7.3.10 an indirect object whose body is a one-token value (the case of finding no_separator_before_endobj): with the
+// separator the five tokens are  id gen obj <body> endobj
+pub proof fn theorem_framed_scalar_reads_back(pre: Seq<u8>, id: ObjNr, gen: GenNr, v: Primitive, rest: Seq<u8>)
+    requires seps_ok(), display_req(), is_one_token_value(v), !DEV_REAL_WITHOUT_PERIOD(), !DEV_NO_SEPARATOR_BEFORE_ENDOBJ(),
+    ensures lex_seq(pre + spell_indirect(id, gen, v) + rest, pre.len() as int,
+                    seq![dec_int(id as int), dec_int(gen as int), KW_OBJ(), spell(v), KW_ENDOBJ()])
+        == Some(pre.len() + spell_indirect(id, gen, v).len() - SEP_ENDOBJ().len()),
+{
+    lemma_dec_int_word(id as int); lemma_dec_int_word(gen as int); lemma_keywords_are_words(); lemma_one_token_value(v);
+    let e = Seq::<u8>::empty();
+    let seps = seq![e, SEP_REF(), SEP_REF(), SEP_OBJ(), SEP_BODY()];
+    let ws = seq![dec_int(id as int), dec_int(gen as int), KW_OBJ(), spell(v), KW_ENDOBJ()];
+    let tail = SEP_ENDOBJ() + rest;
+    assert(all_ws(e));
+    assert(tail.len() == 0 || !is_regular(tail[0])) by { if SEP_ENDOBJ().len() > 0 { assert(tail[0] == SEP_ENDOBJ()[0]); } }
+    let c = cat(seps, ws);
+    assert(c =~= dec_int(id as int) + SEP_REF() + dec_int(gen as int) + SEP_REF() + KW_OBJ() + SEP_OBJ() + spell(v) + SEP_BODY() + KW_ENDOBJ()) by {
+        let s1 = seps.drop_first(); let w1 = ws.drop_first(); let s2 = s1.drop_first(); let w2 = w1.drop_first();
+        let s3 = s2.drop_first(); let w3 = w2.drop_first(); let s4 = s3.drop_first(); let w4 = w3.drop_first();
+        assert(cat(s4.drop_first(), w4.drop_first()) =~= e);
+        assert(cat(s4, w4) =~= SEP_BODY() + KW_ENDOBJ());
+        assert(cat(s3, w3) =~= SEP_OBJ() + spell(v) + (SEP_BODY() + KW_ENDOBJ()));
+        assert(cat(s2, w2) =~= SEP_REF() + KW_OBJ() + cat(s3, w3));
+        assert(cat(s1, w1) =~= SEP_REF() + dec_int(gen as int) + cat(s2, w2));
+    }
+    assert(pre + spell_indirect(id, gen, v) + rest =~= pre + c + tail);
+    assert(spell_indirect(id, gen, v).len() == c.len() + SEP_ENDOBJ().len());
+    theorem_tokens_read_back(pre, seps, ws, tail);
+}
+// ... and without it (DEV_NO_SEPARATOR_BEFORE_ENDOBJ: the pinned writer) the token after `obj` is NOT the body: it runs on
+// through the keyword (`5endobj`, `/Nameendobj`)
+pub proof fn theorem_fused_without_separator(pre: Seq<u8>, v: Primitive, rest: Seq<u8>)
+    requires display_req(), is_one_token_value(v), !DEV_REAL_WITHOUT_PERIOD(),
+    ensures ({
+        let buf = pre + spell(v) + KW_ENDOBJ() + rest;
+        token_start(buf, pre.len() as int) == Some(pre.len() as int) && token_end(buf, pre.len() as int) >= pre.len() + spell(v).len() + KW_ENDOBJ().len()
+    })
+{
+    lemma_one_token_value(v); lemma_keywords_are_words();
+    let w = spell(v) + KW_ENDOBJ();
+    assert(absorbs(spell(v)));
+    assert(tok_shape(w)) by {
+        if is_word(spell(v)) { assert forall|i: int| 0 <= i < w.len() implies is_regular(#[trigger] w[i]) by { if i < spell(v).len() { assert(w[i] == spell(v)[i]); } else { assert(w[i] == KW_ENDOBJ()[i - spell(v).len()]); } } }
+        else { assert(w[0] == spell(v)[0]); assert forall|i: int| 1 <= i < w.len() implies is_regular(#[trigger] w[i]) by { if i < spell(v).len() { assert(w[i] == spell(v)[i]); } else { assert(w[i] == KW_ENDOBJ()[i - spell(v).len()]); } } }
+    }
+    // the token is the maximal run: at least w (longer if `rest` goes on with regular characters)
+    let buf = pre + spell(v) + KW_ENDOBJ() + rest;
+    let p = pre.len() as int;
+    assert(buf =~= pre + Seq::<u8>::empty() + w + rest);
+    assert forall|i: int| p <= i < p + w.len() implies #[trigger] buf[i] == w[i - p] by {}
+    assert(buf[p] == w[0]);
+    assert(!is_ws(w[0]) && w[0] != 37) by { if is_word(w) { assert(is_regular(w[0])); } }
+    lemma_ws_end_run(buf, p, 0);
+    if is_word(w) { lemma_reg_end_ge(buf, p, w.len() as int); } else { lemma_reg_end_ge(buf, p + 1, w.len() - 1); }
+}
+proof fn lemma_reg_end_ge(buf: Seq<u8>, p: int, k: int)
+    requires 0 <= p, 0 <= k, p + k <= buf.len(), forall|i: int| p <= i < p + k ==> is_regular(#[trigger] buf[i]),
+    ensures reg_end(buf, p) >= p + k
+    decreases k
+{ if k > 0 { lemma_reg_end_ge(buf, p + 1, k - 1); } }
